@@ -9,12 +9,22 @@ mod commands;
 use commands::{BrokerCommands, Commands, OutputFormat};
 use schemars::schema_for;
 use std::fs;
+use std::io::Write;
 
 #[derive(Parser)]
 #[command(author, version, about, long_about = None)]
 struct Cli {
     #[command(subcommand)]
     command: Commands,
+}
+
+/// Write `text` to standard output. A failed write (closed pipe, full device) is returned as
+/// an error instead of the panic `print!` would raise.
+fn emit(text: &str) -> Result<()> {
+    let mut out = std::io::stdout().lock();
+    out.write_all(text.as_bytes())
+        .and_then(|()| out.flush())
+        .map_err(|error| anyhow::anyhow!("failed writing to standard output: {error}"))
 }
 
 /// Read and concatenate multiple input files.
@@ -54,7 +64,7 @@ fn main() -> Result<()> {
         Commands::Parse { files, schema } => {
             if *schema {
                 let schema = schema_for!(Vec<Transaction>);
-                println!("{}", serde_json::to_string_pretty(&schema)?);
+                emit(&format!("{}\n", serde_json::to_string_pretty(&schema)?))?;
                 return Ok(());
             }
 
@@ -62,7 +72,7 @@ fn main() -> Result<()> {
                 let content = read_and_concatenate_files(files)?;
                 let transactions = parse_file(&content)?;
                 let json = serde_json::to_string_pretty(&transactions)?;
-                println!("{}", json);
+                emit(&format!("{json}\n"))?;
             }
         }
         Commands::Report {
@@ -94,7 +104,7 @@ fn main() -> Result<()> {
                     if let Some(path) = output {
                         fs::write(path, content)?;
                     } else {
-                        print!("{}", content);
+                        emit(&content)?;
                     }
                 }
                 OutputFormat::Json => {
@@ -102,7 +112,7 @@ fn main() -> Result<()> {
                     if let Some(path) = output {
                         fs::write(path, content)?;
                     } else {
-                        println!("{}", content);
+                        emit(&format!("{content}\n"))?;
                     }
                 }
                 OutputFormat::Pdf => {
@@ -130,7 +140,9 @@ fn main() -> Result<()> {
                     }
 
                     fs::write(&output_path, pdf_bytes)?;
-                    println!("PDF written to {}", output_path.display());
+                    // The report is on disk at this point: a note that cannot be printed is
+                    // not a failure of the run.
+                    let _ = emit(&format!("PDF written to {}\n", output_path.display()));
                 }
             }
         }
@@ -169,7 +181,7 @@ fn main() -> Result<()> {
                     if let Some(output_path) = output {
                         fs::write(output_path, &result.cgt_content)?;
                     } else {
-                        println!("{}", result.cgt_content);
+                        emit(&format!("{}\n", result.cgt_content))?;
                     }
                 }
             }
